@@ -314,6 +314,11 @@ def _compile_v(v, deps, timeout):
                        os.path.join(tmpd, base), v], cwd=COQDIR, timeout=timeout + 30, check=False, quiet=True)
         ok = rc == 0 and os.path.exists(os.path.join(tmpd, base))
         if ok:
+            if v.startswith("Props/"):
+                # keep what the file printed (Print Assumptions) beside the .vo
+                with open(os.path.join(tmpd, base + ".out"), "w") as f:
+                    f.write(out)
+                os.replace(os.path.join(tmpd, base + ".out"), os.path.join(COQDIR, v + "o.out"))
             os.replace(os.path.join(tmpd, base), os.path.join(COQDIR, v + "o"))
         else:
             try:
@@ -405,7 +410,18 @@ def coq_make(targets, timeout=3000, keep_going=True):
 
 
 def coqc_capture(vfile, timeout=900):
-    """Re-run coqc on one file (its dependencies are built) and return (ok, stdout)."""
+    """Output of coqc on one file (its dependencies are built): (ok, stdout).  The output saved
+    when the current .vo was compiled is used if present, else coqc is re-run."""
+    vo = os.path.join(COQDIR, vfile + "o")
+    side = vo + ".out"
+    a, b = _mtime(vo), _mtime(side)
+    if a is not None and b is not None and b <= a and a - b < 600 * 10**9:
+        try:
+            txt = open(side).read()
+            if "Closed under the global context" in txt or "Axioms:" in txt:
+                return True, txt
+        except OSError:
+            pass
     tmpd = os.path.join(CACHE, "coqtmp-%d" % os.getpid())
     os.makedirs(tmpd, exist_ok=True)
     target = os.path.join(tmpd, os.path.basename(vfile) + "o")
